@@ -67,7 +67,16 @@ CORE = ('oneof',
           'certificate_value': ('obj', 'kmip.core.primitives.ByteString', {'value': 'bytes'})}),
         ('obj', 'kmip.core.secrets.OpaqueObject',
          {'opaque_data_type': EN('kmip.core.secrets.OpaqueObject.OpaqueDataType', 'OpaqueDataType'),
-          'opaque_data_value': ('obj', 'kmip.core.primitives.ByteString', {'value': SECRET})}))
+          'opaque_data_value': ('obj', 'kmip.core.primitives.ByteString', {'value': SECRET})}),
+        # a decoded split key: the four split-key integers/method are required by its decoder, the
+        # key block is the same as for the other keys (algorithm and length optional there)
+        ('obj', 'kmip.core.secrets.SplitKey',
+         {'_key_block': KEY_BLOCK,
+          '_split_key_parts': ('obj', 'kmip.core.primitives.Integer', {'value': 'int32nat'}),
+          '_key_part_identifier': ('obj', 'kmip.core.primitives.Integer', {'value': 'int32nat'}),
+          '_split_key_threshold': ('obj', 'kmip.core.primitives.Integer', {'value': 'int32nat'}),
+          '_split_key_method': EN('kmip.core.primitives.Enumeration', 'SplitKeyMethod'),
+          '_prime_field_size': _LO(('obj', 'kmip.core.primitives.BigInteger', {'value': 'nat'}))}))
 
 
 def t_fields_carried_over(ev, outcome, exc, path, I):
@@ -98,6 +107,15 @@ def t_fields_carried_over(ev, outcome, exc, path, I):
         want = {'value': f(src, 'certificate_value', 'value')}
     elif name == 'OpaqueObject':
         want = {'value': f(src, 'opaque_data_value', 'value'), 'opaque_type': f(src, 'opaque_data_type', 'value')}
+    elif name == 'SplitKey':
+        want = {'value': f(src, '_key_block', 'key_value', 'key_material', 'value'),
+                'cryptographic_algorithm': f(src, '_key_block', 'cryptographic_algorithm', 'value'),
+                'cryptographic_length': f(src, '_key_block', 'cryptographic_length', 'value'),
+                'key_format_type': f(src, '_key_block', 'key_format_type', 'value'),
+                '_split_key_parts': f(src, '_split_key_parts', 'value'),
+                '_key_part_identifier': f(src, '_key_part_identifier', 'value'),
+                '_split_key_threshold': f(src, '_split_key_threshold', 'value'),
+                '_split_key_method': f(src, '_split_key_method', 'value')}
     kwd = f(src, 'key_block', 'key_wrapping_data') if name in ('SymmetricKey', 'PublicKey', 'PrivateKey') else None
     if kwd is not None:
         want['_kdw_wrapping_method'] = f(kwd, '_wrapping_method', 'value')
